@@ -42,6 +42,23 @@ Section C08.
       /\ it_protected H it = p /\ it_unprotected H it = u
       /\ it_si H it = je_si H e /\ it_sig H it = sg /\ it_claims H it = payload.
   Proof. exact (flattened_roundtrip H hview parse_header ser_header utf8 parse_ser ser_bytes). Qed.
+
+  (* general serialisation, ANY number of recipients: the encoder succeeds only when every recipient's headers pass the policy and
+     agree with the first on b64; then EVERY recipient's entry (with the shared payload member) decodes to that recipient's headers,
+     the shared payload, its signature, and the signing input  BASE64URL(protected_k) '.' payload-as-encoded-for-the-first *)
+  Theorem C08_general_roundtrip : forall payload rs detached top envs,
+    Forall (fun b => b < 256) payload -> payload <> [] ->
+    enc_general H hview ser_header utf8 payload rs detached = Ok (top, envs) ->
+    exists p0 u0 s0 rest, rs = (p0, u0, s0) :: rest /\ length envs = length rs
+      /\ top = (if detached then None else Some (encode_if_b64 H hview payload p0))
+      /\ forall k p u sg, nth_error rs k = Some (p, u, sg) -> Forall (fun b => b < 256) sg ->
+         exists env, nth_error envs k = Some env /\ e_payload H env = None /\
+           let env' := {| e_payload := top; e_protected := e_protected H env; e_header := e_header H env; e_signature := e_signature H env |} in
+           let det := if detached then Some (encode_if_b64 H hview payload p0) else None in
+           exists it, decode_envelope H hview parse_header env' det = Ok it
+             /\ it_protected H it = p /\ it_unprotected H it = u
+             /\ it_si H it = general_si H hview ser_header payload p0 p /\ it_sig H it = sg /\ it_claims H it = payload.
+  Proof. exact (general_roundtrip H hview parse_header ser_header utf8 parse_ser ser_bytes). Qed.
 End C08.
 
 Print Assumptions C08_base64_decode_encode.
@@ -49,3 +66,4 @@ Print Assumptions C08_base64_canonical.
 Print Assumptions C08_base64_charset.
 Print Assumptions C08_compact_roundtrip.
 Print Assumptions C08_flattened_roundtrip.
+Print Assumptions C08_general_roundtrip.
